@@ -2,7 +2,10 @@ package main
 
 import (
 	"fmt"
+	"go/ast"
+	"go/constant"
 	"go/token"
+	"go/types"
 	"strings"
 
 	"golang.org/x/tools/go/ssa"
@@ -576,4 +579,124 @@ func ruleDecompAgree(r *Run) {
 		}
 	})
 	r.check(sel, "(*streamHTTP).decodeRequestArgs/codec-by-content-type", dra.Pos(), "the request codec is selected by the request's content type", "the request codec is not selected by the request's Content-Type")
+}
+
+// ---------------------------------------------------------------------------
+// CODEC-LOOKUP-TOTAL
+// ---------------------------------------------------------------------------
+
+func init() {
+	register(&Rule{Name: "CODEC-LOOKUP-TOTAL", Floor: 1,
+		Doc: "a codec/compressor obtained from the option maps without a comma-ok or nil test is used only when its key is provably present: the result of negotiateContentType over the registered offers with a constant default that is a key of the built-in codec table",
+		Run: ruleCodecLookupTotal})
+}
+
+func ruleCodecLookupTotal(r *Run) {
+	p := r.P
+	reach := p.reachRequest()
+	maps := map[*types.Var]bool{}
+	for _, n := range []string{"codecs", "codecsByName", "compressors"} {
+		if f := p.StructField("muxOptions", n); f != nil {
+			maps[f] = true
+		}
+	}
+	// keys of the built-in codec table
+	builtin := map[string]bool{}
+	if init := globalInit(p.Lark, "defaultCodecs"); init != nil {
+		if m, ok := mapLiteralKeys(p, init); ok {
+			builtin = m
+		}
+	}
+	n := 0
+	for _, fn := range sortedFuncs(reach) {
+		site := 0
+		eachInstr(fn, func(in ssa.Instruction) {
+			lk, ok := in.(*ssa.Lookup)
+			if !ok || lk.CommaOk {
+				return
+			}
+			isOpt := false
+			for _, o := range p.origins(lk.X, originOpts{}) {
+				if f := loadedField(o); f != nil && maps[f] {
+					isOpt = true
+				}
+			}
+			if !isOpt {
+				return
+			}
+			// invoked without a nil test?
+			var unguarded ssa.Instruction
+			for _, use := range p.usesThroughCells(lk) {
+				c, ok := use.(ssa.CallInstruction)
+				if !ok || !c.Common().IsInvoke() {
+					continue
+				}
+				if !p.knownNonNil(lk, nil, use) && !p.valueNonNilAt(lk, use) {
+					unguarded = use
+				}
+			}
+			if unguarded == nil {
+				return
+			}
+			site++
+			n++
+			key := fmt.Sprintf("%s/unchecked-lookup#%d", shortFunc(fn), site)
+			// the key: negotiateContentType(_, offers, constant default in the built-in table)
+			good, why := false, "the key is not the result of negotiateContentType"
+			for _, o := range p.origins(lk.Index, originOpts{}) {
+				c, ok := o.(*ssa.Call)
+				if !ok || calleeName(c) != "larking.io/larking.negotiateContentType" {
+					continue
+				}
+				def, isC := constString(c.Call.Args[2])
+				switch {
+				case !isC:
+					why = "the default offer handed to negotiateContentType is not a constant (" + describeValue(c.Call.Args[2]) + "): when nothing is negotiated the lookup key is whatever the request sent"
+				case !builtin[def]:
+					why = fmt.Sprintf("the default offer %q is not a key of the built-in codec table", def)
+				default:
+					good = true
+				}
+			}
+			r.check(good, key, unguarded.Pos(), "the looked-up codec is always present: negotiated over the registered offers with a built-in constant default",
+				"a method is invoked on the result of an option-map lookup without comma-ok/nil test and the key is not provably present ("+why+"): nil interface method call (the error path crashes instead of producing a response)")
+		})
+	}
+	if n == 0 {
+		r.ok("option-map lookups", token.NoPos, "every option-map lookup on request paths is comma-ok or nil-tested before use")
+	}
+}
+
+// valueNonNilAt: a nil test of v (through a local variable) dominates `at`.
+func (p *Program) valueNonNilAt(v ssa.Value, at ssa.Instruction) bool {
+	for _, g := range guardsOf(at.Block()) {
+		bo, ok := g.Cond.(*ssa.BinOp)
+		if !ok || !isNilConst(bo.Y) {
+			continue
+		}
+		for _, o := range p.origins(bo.X, originOpts{}) {
+			if o == v && ((bo.Op == token.NEQ && g.True) || (bo.Op == token.EQL && !g.True)) {
+				return true
+			}
+		}
+	}
+	return false
+}
+
+func mapLiteralKeys(p *Program, e ast.Expr) (map[string]bool, bool) {
+	cl, ok := ast.Unparen(e).(*ast.CompositeLit)
+	if !ok {
+		return nil, false
+	}
+	out := map[string]bool{}
+	for _, el := range cl.Elts {
+		kv, ok := el.(*ast.KeyValueExpr)
+		if !ok {
+			return nil, false
+		}
+		if k := constOf(p.Lark, kv.Key); k != nil && k.Kind() == constant.String {
+			out[constant.StringVal(k)] = true
+		}
+	}
+	return out, true
 }
